@@ -176,10 +176,20 @@ CLAIMS = {
          "TraceeCtl add/remove/tracee_mut are assumed std-HashMap contracts on a ghost set; ptrace event codes typed from ptrace(2); "
          "distribution of watchpoints is tracked by a local ghost set at the call sites.",
          "Verus contracts on mechanically spliced match arms of the real function", "8.11/C09"),
+ "C03": ("proof",
+         "Verus proofs on the real step code: single_step_instruction executes exactly one instruction of the focused thread (through "
+         "step_over_breakpoint when it stands on a breakpoint, otherwise Tracer::single_step of that thread; ghost step history), and the "
+         "stop criterion of step_in's main loop is exactly: the place reached is a statement boundary and either the frame changed (CFA) or "
+         "file/line differ from the start place -- it stops there and nowhere earlier or later among the places it is shown. Scope: the "
+         "decision logic only; that the places visited are those of the real execution, next/finish (temporary breakpoints: their "
+         "installation and removal are covered under C02), prologue skipping and the reporting of interrupted steps are NOT covered: "
+         "they are defined relative to the debuggee's instruction trace.",
+         "step_over_prolog, get_cfa, single_step and step_over_breakpoint are external (assumed to step one instruction of the thread given); "
+         "the criterion is asserted at the break and negated after the if (ghost rewrites).",
+         "Verus contracts / asserted exits on the mechanically extracted real functions", "8.12/C03"),
 }
 
 NA = {
- "C03": "step semantics are defined relative to the debuggee's real instruction trace and call depth; no function on the path has a postcondition expressible without the debuggee's execution semantics",
  "C20": "decoding of tokio-internal layouts through DQE evaluation on a live process; nothing algorithmic of its own to put under contract",
 }
 
